@@ -4,7 +4,7 @@ T = "RsslVerif.Thm.C13."
 
 def nontrivial(req, obs):
     # an operator or cast applied to something, with a definite outcome
-    return req.count("(op ") + req.count("(cast ") >= 1
+    return req.count("(op ") + req.count("(cast ") + req.count("(b ") + req.count("(u ") + req.count("(t ") >= 1
 
 
 def finding_key(req, obs, detail):
@@ -31,12 +31,18 @@ def finding_key(req, obs, detail):
     # RayQuery<flags>: get_uint truncates an out-of-range literal with `as u32`
     if re.match(r"FAIL:rayquery recorded flags:\d+ for an expression whose value is L-?\d+ \(expected a rejection", d):
         return K_RAYQUERY
+    # an enum with underlying type uint is converted to int when it meets an int / bool operand (every enum ranks below bool)
+    if d.startswith("FAIL:[uint-backed enum converted to int]"):
+        return K_ENUMUINT
+    if req.startswith("C13.mix\t"):
+        return "\t".join(req.split("\t")[:2])
     return req.split("\tsrc:")[0]
 
 
 K_TEMPLATE = "template value argument is not converted to the declared parameter type (typer/src/typer/types.rs, scopes.rs)"
 K_TOF32 = "float property rejects a float literal or a negative int (Constant::to_f32, ir/src/ir_types.rs)"
 K_RAYQUERY = "RayQuery flags literal outside 32 bits is truncated (get_uint, typer/src/typer/types.rs)"
+K_ENUMUINT = "uint-backed enum operand is converted to int (get_non_vector_conversion_rank ranks every enum below bool, typer/src/typer/expressions.rs)"
 K_ENUMREF = "panic typer/src/typer/expressions.rs: type self-check on a reference to an earlier enumerator (typer/src/typer/enums.rs records the initialiser's static type)"
 
 
@@ -58,6 +64,15 @@ def _subtrees(s):
 
 def shrink(req):
     f = req.split("\t")
+    if f[0] == "C13.mix" and len(f) >= 2:
+        # a source tree: one of its operand subtrees, or one operand replaced by one of its operands
+        for sub in _subtrees(f[1]):
+            if not sub.startswith("(a "):
+                yield "C13.mix\t" + sub
+        for sub in _subtrees(f[1]):
+            for subsub in _subtrees(sub):
+                yield "C13.mix\t" + f[1].replace(sub, subsub, 1)
+        return
     if f[0] != "C13.eval" or len(f) < 2:
         return
     tree = f[1]
@@ -94,7 +109,7 @@ def search(ctx):
 
 SPEC = {
     "id": "C13",
-    "gens": ["EvalTable", "EvalSites", "PosTable"],
+    "gens": ["EvalTable", "EvalSites", "PosTable", "RankTable", "TypingTables", "BinopTyping"],
     "lean_modules": ["RsslVerif.Thm.C13"],
     "theorems": [T + n for n in [
         "consteval_no_panic", "tables_panic_free", "consteval_agrees", "div_mod_zero_not_constant",
@@ -103,7 +118,8 @@ SPEC = {
         "float_to_int_trunc_saturate", "float_narrowing_is_c10_narrow32", "position_rules_as_reviewed", "position_count_agrees", "position_count_complete",
         "position_count_rejections", "case_label_value", "const_initialiser_value", "template_argument_value",
         "template_argument_not_converted", "lod_property_value", "lod_property_complete", "lod_property_rejections",
-        "enum_values_c_semantics", "enum_rejected_only_out_of_range", "enum_overflow_only_at_type_max", "enum_no_panic"]],
+        "enum_values_c_semantics", "enum_rejected_only_out_of_range", "enum_overflow_only_at_type_max", "enum_no_panic",
+        "binop_common_type_as_specified_partial", "binop_common_type_uint_enum_not_as_specified", "binop_common_type_literal_pairs"]],
     "harness": "c13",
     "nontrivial": nontrivial,
     "finding_key": finding_key,
@@ -130,7 +146,15 @@ SPEC = {
                   "with witnesses replayed on the real compiler (template arguments are not converted to the parameter type). "
                   "The models are compared with the real code on boundary-value trees (direct IR and IR from the real type checker), on "
                   "78 position programs per expression and on whole enum definitions; an independent Rust reference evaluator judges "
-                  "every real result, including the number printed in the emitted HLSL.",
+                  "every real result, including the number printed in the emitted HLSL. Operands of different kinds: the type "
+                  "parse_expr_binop converts both operands of a binary operator to (ranks, integer-only operators, short-circuit "
+                  "operators, the bool-to-int remap and the operators it applies to — all re-extracted) is proved equal to HLSL's usual "
+                  "arithmetic conversions for every operator and every ordered pair of operand kinds (bool, int/float literal, int, "
+                  "uint, half, float, double, int- and uint-backed enum) outside two named classes: a uint-backed enum with int/bool "
+                  "(converted to int: proved in the negative with a witness, known finding) and an untyped integer literal with "
+                  "bool/enum (proved never to yield a typed kind; observed only as notconst/reject). A source-level stream (C13.mix) "
+                  "folds every operator on every pair of kinds with the real compiler and judges the value with a reference evaluator "
+                  "that applies the usual arithmetic conversions itself instead of trusting the casts the type checker inserted.",
     "rule": "requests: C13.eval = IR expression tree (module lookups inlined) run through the real evaluate_constexpr — "
             "(1) depth-1 trees: every integer/comparison operator on all pairs of boundary operands per kind, every unary operator and "
             "every cast target on every boundary constant of every kind, float comparisons on boundary pairs; (2) kind-consistent random "
@@ -147,6 +171,13 @@ SPEC = {
             "bind_group, vk::binding, DefaultBindGroup, WriteMask, MaxAnisotropy, MinLOD/MaxLOD; assert_eval on either side — the IR "
             "field and, where the value is printed, the emitted HLSL are judged against the reference value; C13.enum = whole enum "
             "definitions (1-6 enumerators, implicit/explicit/references to earlier and later enumerators) judged against C semantics; "
+            "C13.mix = a source tree over 45 atoms of known kind and value (bool, literal, int, uint, float, half, double, float "
+            "literal, enumerators and casts of an int-backed, a uint-backed and a namespaced enum, static const bool/int/uint; values "
+            "0 1 2 3 5 -1 2^31 2^32-1 0.5): every binary operator on every ordered pair of kinds (quick: 3 seeded atom pairs per "
+            "pair of kinds plus half of all atom pairs of bool/enum/int/uint for the six comparisons; thorough: every atom pair), "
+            "every unary operator on every atom, ?: over every pair of kinds, random trees of depth 2-3; rendered to source, type "
+            "checked and folded by the real compiler, judged by the usual arithmetic conversions; the IR and (depth 1) the type "
+            "both operands were converted to are compared with the model; "
             "non-trivial = contains an operator or cast",
     "trusted_base": [
         "Lean 4.33 kernel; axioms propext / Classical.choice / Quot.sound only (audited by #print axioms)",
@@ -156,6 +187,14 @@ SPEC = {
         "parse_expr_as_u32, parse_statement_attribute, WriteMask, case labels, const-only folding of initialisers, kinds accepted by "
         "parse_and_evaluate_constant_expression, first/successor/overflow arms of parse_rootdefinition_enum, the type recorded with an "
         "enumerator (type of the evaluated constant), range kinds, candidate types and conversions of end_enum) — re-run on /repo's working tree every time; unknown shapes are extraction errors",
+        "tools/gens/c13.py Gen.BinopTyping (the statement after most_significant_non_vector in parse_expr_binop: which scalar is "
+        "remapped to which, and for which operators — `let x = matches!(op, ..)` conditions are understood, any other shape is an "
+        "extraction error) and tools/gens/c03.py Gen.TypingTables / tools/gens/c16.py Gen.RankTable (get_non_vector_conversion_rank, "
+        "require_integer, short-circuit test, `left_order > right_order`), Model/ConstBinop.lean (control flow of the common-type "
+        "block, tied by the `ct:` field of C13.mix), Spec/HlslUsualConv.lean (our reading of the usual arithmetic conversions: bool "
+        "promotes to int, enum through its underlying type, literal < int < uint < float literal < half < float < double; two "
+        "operands of one enum stay of that enum); harness/src/c13_mix.rs `reference_s` (same rules written independently in Rust; "
+        "shifts whose promoted operands differ in signedness and float arithmetic are not judged)",
         "hand-written Model/ConstEval.lean and Model/ConstPos.lean (control flow of the modelled functions; Rust integer semantics of "
         "plain/wrapping/checked operations and `as` casts) — tied to the code by the correspondence run",
         "Model/ConstEvalFloat.lean `decode` (meaning of an IEEE-754 bit pattern), `cmp`, `neg`, `neZero`: given; `round`, `ofInt`, "
@@ -176,6 +215,9 @@ SPEC = {
         "overflow panics are those of a build with overflow-checks (the harness profile); release builds wrap instead; the type "
         "self-check of parse_expr_internal (debug_assertions) is outside the model: a panic of it is an oracle failure, never an `unsupported`",
         "NaN payload propagation of f64->f32 conversion follows x86 cvtsd2ss (NaN constants cannot be written in source)",
+        "conversions the type checker inserts for unary operators, ?: and casts between enums are judged by the source-level "
+        "reference evaluator only (no extracted table; ?: is never folded by the pinned compiler); vector / matrix operands of "
+        "operators are outside C13's constant expressions",
         "positions whose value flows through further declarations (flow_*), the conversion of `return N` in template bodies, "
         "RayQuery flags and assert_eval acceptance are judged by the reference evaluator only (no Lean model); name clashes of "
         "enumerators and overload resolution between templates are other properties' subjects",
